@@ -108,6 +108,7 @@ type verifC11Env struct {
 	nid     int64
 	nacc    int64
 	nmark   int64
+	selfID  string // C13: user id of the session under test ("$SELF" in mutation values)
 	journal *os.File
 	pw      map[string][]byte // cheap bcrypt hashes by password
 }
